@@ -134,8 +134,8 @@ def readHeader (line : Bytes) : Except Panic (QRec × Option Err) :=
     pure ({ name := name, desc := desc, letters := [], quals := [] }, none)
 
 /-- the code after the loop: strip blanks from the quality line, compare lengths, decode -/
-def finish (cfg : Cfg) (st : LoopSt) (line : Bytes) (rest : List Bytes) :
-    Except Panic (Ret × List Bytes) :=
+def finish (cfg : Cfg) (st : LoopSt) (line : Bytes) (rest : List Bytes × Bytes) :
+    Except Panic (Ret × List Bytes × Bytes) :=
   let line := removeSpaces line                           -- bytes.Join(bytes.Fields(line), nil)
   if line.length != st.seqBuff.length then
     pure (⟨none, some .lengthMismatch⟩, rest)
@@ -151,38 +151,44 @@ def sameLabel (label line : Bytes) : Except Panic Bool := do
   let b ← sliceFrom line 1
   pure (a == b)
 
-/-- the `for` loop of `Read` over the remaining lines -/
-def loop (cfg : Cfg) : LoopSt → List Bytes → Except Panic (Ret × List Bytes)
+/-- The `for` loop of `Read` over the remaining input: the complete lines, and `pend`, the
+    bytes of a final line that `ReadLine` delivers only as `isPrefix` fragments before
+    `io.EOF` (`Biogo.Go.Bytes.readLineInput`; `[]` in all but that corner).  The fragments
+    are in `line` when `io.EOF` arrives: in state `quality` they are used as the quality
+    line (untrimmed), otherwise they are dropped with the incomplete record.  The result
+    carries the input that is left. -/
+def loop (cfg : Cfg) (pend : Bytes) : LoopSt → List Bytes → Except Panic (Ret × List Bytes × Bytes)
   | st, [] =>
     -- ReadLine returned io.EOF
     if st.t.isSome && st.state == .quality then
-      finish cfg { st with err := none } [] []             -- err = nil; break  (line is empty)
-    else pure (⟨none, some .eof⟩, [])
+      finish cfg { st with err := none } pend ([], [])     -- err = nil; break
+    else pure (⟨none, some .eof⟩, [], [])
   | st, raw :: rest =>
     let st := { st with err := none }                      -- buff, isPrefix, err = r.r.ReadLine()
     let line := trimSpace raw
     if st.state == .id1 && maybeID1 line then do
       let (t, _err) ← readHeader line
-      loop cfg { st with state := .letters, t := some t, err := _err, label := line } rest
+      loop cfg pend { st with state := .letters, t := some t, err := _err, label := line } rest
     else if st.state == .id2 && maybeID2 line then do
-      if st.label.length == 0 then pure (⟨none, some .noHeader⟩, rest)
+      if st.label.length == 0 then pure (⟨none, some .noHeader⟩, rest, pend)
       else
         let same ← (if line.length != 1 then sameLabel st.label line else pure true)
-        if !same then pure (⟨none, some .qualHeader⟩, rest)
-        else loop cfg { st with state := .quality } rest
+        if !same then pure (⟨none, some .qualHeader⟩, rest, pend)
+        else loop cfg pend { st with state := .quality } rest
     else if st.state == .letters && line.length > 0 then do
       let plus ← (if maybeID2 line then
                     (if line.length == 1 then pure true else sameLabel st.label line)
                   else pure false)
-      if plus then loop cfg { st with state := .quality } rest
-      else loop cfg { st with state := .id2, seqBuff := line.filter (fun b => !isSpace b) } rest
+      if plus then loop cfg pend { st with state := .quality } rest
+      else loop cfg pend { st with state := .id2, seqBuff := line.filter (fun b => !isSpace b) } rest
     else if st.state == .quality then
-      if line.length == 0 && st.seqBuff.length != 0 then loop cfg st rest   -- continue
-      else finish cfg st line rest                                          -- break loop
-    else loop cfg st rest
+      if line.length == 0 && st.seqBuff.length != 0 then loop cfg pend st rest   -- continue
+      else finish cfg st line (rest, pend)                                       -- break loop
+    else loop cfg pend st rest
 
-/-- one call of `Reader.Read`: the returned pair and the lines not yet consumed -/
-def read (cfg : Cfg) (lines : List Bytes) : Except Panic (Ret × List Bytes) := loop cfg {} lines
+/-- one call of `Reader.Read`: the returned pair and the input not yet consumed -/
+def read (cfg : Cfg) (lines : List Bytes) (pend : Bytes) : Except Panic (Ret × List Bytes × Bytes) :=
+  loop cfg pend {} lines
 
 /-- one entry of the call history of a reader -/
 inductive Call
@@ -192,18 +198,18 @@ inductive Call
   deriving DecidableEq, Repr
 
 /-- Call `read` until it returns io.EOF, at most `fuel` times. -/
-def readAllAux (cfg : Cfg) : Nat → List Bytes → List Call
-  | 0, _ => [.unfinished]
-  | fuel + 1, lines =>
-    match read cfg lines with
+def readAllAux (cfg : Cfg) : Nat → List Bytes → Bytes → List Call
+  | 0, _, _ => [.unfinished]
+  | fuel + 1, lines, pend =>
+    match read cfg lines pend with
     | .error p => [.panic p]
-    | .ok (ret, rest) =>
-      if ret.e = some .eof then [.ret ret] else .ret ret :: readAllAux cfg fuel rest
+    | .ok (ret, rest, pend') =>
+      if ret.e = some .eof then [.ret ret] else .ret ret :: readAllAux cfg fuel rest pend'
 
 /-- All calls of `Read` on a fresh reader over `bs`, one call per input line plus one. -/
 def readAll (cfg : Cfg) (bs : Bytes) : List Call :=
-  let lines := splitLines bs
-  readAllAux cfg (lines.length + 1) lines
+  let (lines, pend) := readLineInput bs
+  readAllAux cfg (lineCount bs + 1) lines pend
 
 /-! ### writer -/
 
